@@ -45,7 +45,10 @@ Definition list_agrees_c (cr : cresult) (o : lobs) : bool :=
   if cr_panic cr then match o with LObsPanic => true | _ => false end
   else match cr_errs cr with
        | _ :: _ => match o with LObsErr e => existsb (N.eqb e) (cr_errs cr) | _ => false end
-       | [] => match o with LObsList bs => mset_eqb plblock_eqb (list_of_context (cr_ctx cr)) bs | _ => false end
+       | [] => match o with
+               | LObsList bs => mset_eqb plblock_eqb (list_of_context (cr_ctx cr)) bs
+                                && per_file_order_eqb (list_of_context (cr_ctx cr)) bs
+               | _ => false end
        end.
 
 (* line changes as the implementation reports them, per file *)
